@@ -2,8 +2,8 @@ SPECIFICATION MCSpec
 CONSTANTS
   W = 2
   MaxMsgs = 3
-  MaxBytes = 10
-  Metas = {1, 2}
+  MaxBytes = 9
+  Metas = {1}
   Bodies = {0, 2}
   Extras = {0, 1}
 INVARIANTS I_Window I_ChunkIndependent I_FramingSemantics
